@@ -83,6 +83,8 @@ fn main() {
         "C26" => props::gen_props::C26,
         "C33" => props::gen_props::C33,
         "C27" => props::ls::C27,
+        "C28" => props::ls::C28,
+        "C29" => props::ls::C29,
         "C30" => props::ls::C30,
         "C34" => props::ls::C34,
         "C31" => props::small::C31,
